@@ -12,7 +12,7 @@ def gen_world(rng, kinds, big=False):
     W = rng.choice([1, 2, 2, 3, 4, 5, 6] + ([7, 8, 12] if big else []))
     top = 72 if big else 24
     N = rng.choice([1, 2, 3, rng.randint(1, top), rng.randint(4, top), rng.randint(10, top)])
-    w = dict(kind=kind, W=W, N=N, seed=rng.choice([0, 1, 5, rng.randint(0, 10 ** 6)]), implicit_rank=rng.random() < 0.3)
+    w = dict(kind=kind, W=W, N=N, seed=rng.choice([0, 1, 5, rng.randint(0, 10 ** 6)]), implicit_rank=rng.random() < 0.3, pre_init_activity=rng.random() < 0.5)
     if kind == "dist":
         r = rng.choice([1, 1, 2, 3, 4])
         w.update(num_repeats=r, drop_last=rng.random() < 0.5, shuffle=True if r > 1 else rng.random() < 0.75)
@@ -79,12 +79,21 @@ class FakeDist:
 class as_rank:
     """context: the code inside runs as rank r of W with torch.distributed 'initialised' (or not, if implicit is False)"""
 
-    def __init__(self, r, W, implicit):
+    def __init__(self, r, W, implicit, key=None):
         self.val = (r, W) if implicit else None
+        self.key = key if key is not None else r
+
+    last_rank = [None]
 
     def __enter__(self):
         import kappadata.utils.distributed as kud
         import torch.utils.data.distributed as tudd
+        from simkit.simproc import clear_library_caches, salted_hash
+        if as_rank.last_rank[0] != self.key:
+            clear_library_caches()  # another process: its own (empty or separately filled) memo caches
+            as_rank.last_rank[0] = self.key
+        self.hash_ctx = salted_hash(f"rank-process/{self.key}")
+        self.hash_ctx.__enter__()
         self.saved = (kud.dist, tudd.dist, FakeDist.current[0])
         if self.val is not None:
             kud.dist = FakeDist
@@ -95,6 +104,7 @@ class as_rank:
         import kappadata.utils.distributed as kud
         import torch.utils.data.distributed as tudd
         kud.dist, tudd.dist, FakeDist.current[0] = self.saved
+        self.hash_ctx.__exit__()
 
 
 def make_sampler(w, dataset, rank, W, implicit=False):
@@ -162,13 +172,22 @@ def run_cluster(plan, out):
         out.count("fault:rank_from_simulated_process_group")
 
     def construct(r):
+        if implicit and w.get("pre_init_activity"):
+            # the process does something with the library BEFORE the process group exists (e.g. builds an evaluation sampler),
+            # then initialises the group and builds the real sampler - all in one time slice of that process
+            with procs[r].on_cpu(), as_rank(r, W, False):
+                make_sampler(w, ds[r], 0, 1, False)
+                out.count("fault:library_used_before_process_group_init")
+                with as_rank(r, W, True):
+                    samplers[r] = make_sampler(w, ds[r], r, W, True)
+            return
         with procs[r].on_cpu(), as_rank(r, W, implicit):
             samplers[r] = make_sampler(w, ds[r], r, W, implicit)
 
     try:
         for r in range(W):
             construct(r)
-        with refp.on_cpu():
+        with refp.on_cpu(), as_rank(0, 1, False, key="ref"):
             ref = make_sampler(w, pickle_copy(base_ds), 0, 1)
     except AssertionError as e:
         raise Rejected(str(e))
@@ -227,7 +246,7 @@ def run_cluster(plan, out):
         for r in range(W):
             with procs[r].on_cpu(), as_rank(r, W, implicit):
                 lens.append(len(samplers[r]))
-        with refp.on_cpu():
+        with refp.on_cpu(), as_rank(0, 1, False, key="ref"):
             if hasattr(ref, "set_epoch"):
                 ref.set_epoch(e)
             g1 = [int(i) for i in ref]
